@@ -1,9 +1,9 @@
 (* C03 - PDU encode/decode round trip.  Model/Pdu.v is tied to protocol.py by the correspondence run of
    harness/C03.py (bytes and exception class of pdu(), fields and exception class of parse_header/from_pdu). *)
-From Coq Require Import ZArith List Bool.
+From Coq Require Import ZArith List Bool Lia.
 Import ListNotations.
 Require Import AV.Generated.ExnOrder AV.Generated.SmppConsts AV.Model.Base AV.Model.Codec AV.Model.Split AV.Model.TimeFmt AV.Model.Pdu
-               AV.Proofs.PduProofs.
+               AV.Spec.Smpp34 AV.Proofs.PduProofs AV.Proofs.WireProofs AV.Proofs.SmProofs.
 Open Scope Z_scope.
 
 (* command_length equals the number of bytes produced: every class, every field assignment that encodes at all,
@@ -58,9 +58,53 @@ Theorem C03_bindresp_roundtrip :
   exists h, parse_header b = Ok h /\ decode default b h = Ok (MBindResp cmd seq st sid ver).
 Proof. exact bindresp_roundtrip. Qed.
 
+(* submit_sm / deliver_sm: every assignment of the mandatory fields, any text the chosen alphabet can carry (GSM, IA5,
+   Latin-1, UCS2; automatic selection with UCS2 fallback), any length (beyond 254 octets the text travels in
+   message_payload), any list of optional parameters of any kind in any order, any default alphabet: decoding the bytes
+   produced yields the message back up to exactly the documented normalisations, spelled out by sm_back - text in
+   message_payload when it does not fit or was given there, an explicitly named default alphabet read back as automatic,
+   unset flag parameters absent, the two time fields as the time parser reads the strings written (their own round trip
+   is C17).  Messages with the UDHI bit are outside this theorem (their segmentation round trip is C08/C09). *)
+Theorem C03_sm_roundtrip :
+  forall default cmd m b sch val,
+  (cmd =? SmppCommand_SUBMIT_SM) || (cmd =? SmppCommand_DELIVER_SM) = true -> mem cmd SmppCommand_values = true ->
+  sm_domain default m ->
+  (forall s1, time_to_smpp (s_sched m) = Ok s1 -> ok_cstr s1 /\ smpp_to_time s1 = Ok sch) ->
+  (forall s1, time_to_smpp (s_valid m) = Ok s1 -> ok_cstr s1 /\ smpp_to_time s1 = Ok val) ->
+  encode default (MSm cmd m) = Ok b ->
+  exists h ce bytes, parse_header b = Ok h /\ decode default b h = Ok (MSm cmd (sm_back m default ce bytes sch val))
+                     /\ (exists e', smpp_encode default m (text_of m) = Ok (bytes, e')) /\ codec_decode ce bytes = Ok (text_of m).
+Proof. exact sm_roundtrip. Qed.
+
+(* the optional parameters on their own: what the encoder writes for a list of parameters is read back as that list
+   without its unset flags, whatever else is in the PDU *)
+Theorem C03_optional_parameters :
+  forall esm codec opts acc payload,
+  Forall opt_wf opts -> Forall (fun p => exists b, op_tlv p = Ok b) opts ->
+  tlvs_meaning esm codec (tl_of opts) acc payload = Ok (acc ++ norm_opts opts, payload).
+Proof. exact meaning_of_opts. Qed.
+
 (* the hypotheses are met and encoding succeeds *)
 Example C03_nonvacuous :
   ser_encode EncGsm (MPlain 21 7 0) = [0; 0; 0; 0; 16; 0; 0; 0; 21; 0; 0; 0; 0; 0; 0; 0; 7]
   /\ (exists b, encode EncGsm (MBindResp SmppCommand_BIND_TRANSCEIVER_RESP 1 0 [83; 77; 83; 67] (Some 52)) = Ok b /\ length b = 26%nat)
-  /\ (exists b, encode EncGsm (MSmResp SmppCommand_SUBMIT_SM_RESP 1 0 [49; 50]) = Ok b /\ length b = 19%nat).
-Proof. split; [vm_compute; reflexivity|]. split; eexists; (split; [vm_compute; reflexivity|reflexivity]). Qed.
+  /\ (exists b, encode EncGsm (MSmResp SmppCommand_SUBMIT_SM_RESP 1 0 [49; 50]) = Ok b /\ length b = 19%nat)
+  /\ (let m := {| s_seq := 7; s_status := 0; s_short := [72; 105; 8364]; s_src := {| ph_number := [49]; ph_ton := 1; ph_npi := 1 |};
+                  s_dst := {| ph_number := [50; 51]; ph_ton := 1; ph_npi := 1 |}; s_service := [67; 77; 84]; s_esm := 3; s_pid := 255; s_prio := 1;
+                  s_sched := TNone; s_valid := TNone; s_regdel := 1; s_replace := 0; s_enc := None; s_defmsg := 0; s_payload := [];
+                  s_opts := [{| op_tag := 524; op_val := TInt 65535 |}; {| op_tag := 4876; op_val := TBool false |};
+                             {| op_tag := 30; op_val := TStr [97; 98] |}];
+                  s_auto := true; s_err := HStrict; s_pre := [] |} in
+      sm_domain EncGsm m /\ exists b, encode EncGsm (MSm SmppCommand_SUBMIT_SM m) = Ok b /\ length b = 56%nat).
+Proof.
+  split; [vm_compute; reflexivity|]. split; [eexists; (split; [vm_compute; reflexivity|reflexivity])|].
+  split; [eexists; (split; [vm_compute; reflexivity|reflexivity])|].
+  cbv zeta. split; [|eexists; split; [vm_compute; reflexivity|reflexivity]].
+  constructor; cbn [s_status s_pre s_err s_esm s_enc s_service s_src s_dst s_opts ph_number ph_ton ph_npi]; try reflexivity.
+  - intros e H. discriminate.
+  - split; [repeat constructor; lia|cbn; lia].
+  - split; [repeat constructor; lia|]. split; [cbn; lia|]. split; vm_compute; reflexivity.
+  - split; [repeat constructor; lia|]. split; [cbn; lia|]. split; vm_compute; reflexivity.
+  - repeat constructor; try (vm_compute; discriminate); try (cbn; exact I); try (cbn; repeat constructor; lia).
+  - unfold text_of. cbn. discriminate.
+Qed.
